@@ -736,15 +736,15 @@ func excluded() map[string]bool {
 // ---------------------------------------------------------------------------
 // generators
 
-func genOpts(online bool) c05.GenOpts {
+func genOpts(online, bulk bool) c05.GenOpts {
 	return c05.GenOpts{CommentPerKind: excluded()[classDetailsTie],
 		MinFiles: 2, MaxFiles: 5, MaxGroups: 2, MaxRules: 5, PoolSize: 5, ParseErrors: true, Symlinks: true,
-		Online: online, MinRuleBlocks: 2, Styles: c05.DefaultStyles()}
+		Online: online, MinRuleBlocks: 2, Bulk: bulk, Styles: c05.DefaultStyles()}
 }
 
 func genPermCase(t *rapid.T) Case {
 	c := Case{Layer: "perm"}
-	c.Input = c05.GenInput(t, genOpts(false))
+	c.Input = c05.GenInput(t, genOpts(false, false))
 	c.Offline = rapid.Bool().Draw(t, "offline")
 	return c
 }
@@ -773,7 +773,7 @@ func genBinCase(layer string) func(t *rapid.T) Case {
 	return func(t *rapid.T) Case {
 		c := Case{Layer: layer}
 		online := rapid.IntRange(0, 2).Draw(t, "online") == 0
-		c.Input = c05.GenInput(t, genOpts(online))
+		c.Input = c05.GenInput(t, genOpts(online, true))
 		if !online {
 			c.Offline = rapid.Bool().Draw(t, "offline")
 		}
